@@ -68,7 +68,7 @@ def normalize_float(number):
     >>> normalize_float('-5d4')
     '-5e4'
     '''
-    norm = re.sub(r'^([-+]?[0-9]*\.[0-9]*[^0])0+$', r'\1', number)
+    norm = re.sub(r'^([-+]?[0-9]*\.[0-9]*?)0+$', r'\1', number)
     if norm[-1] == '.':
         norm += '0'
     norm = re.sub(r'^([-+]?([0-9]+(\.[0-9]*)?|[0-9]*\.[0-9]+))([-+][0-9]+)$',
